@@ -51,7 +51,7 @@ def run(ctx):
             continue
         msgs = []
         for cnt in (0, 1, 2):
-            for fill in ("zero", "random"):
+            for fill in ("zero", "random", "sync"):
                 g = msggen.Gen(rng, d, mode, name, key, cnt, fill)
                 p = g.payload()
                 if g.satisfies_variant(p):
